@@ -114,7 +114,7 @@ Proof.
   destruct (N.eqb_spec (nf_serial nf) (l_serial st)) as [Hn|Hn].
   { intros H; inversion H; subst. repeat split; try assumption; try reflexivity.
     - intros x [].
-    - cbn [length]. lia. }
+    - change (N.of_nat (length (@nil dinfo))) with 0. lia. }
   destruct (last_serial ds) as [ls|] eqn:Hls; cbn [negb]; [|discriminate].
   destruct (N.eqb_spec ls (nf_serial nf)) as [Hl|]; cbn [negb]; [|discriminate].
   destruct (l_serial st =? max_serial); [discriminate|].
@@ -136,7 +136,8 @@ Proof.
   split; [exact Hs|]. split; [exact Hf|]. split.
   - intros x Hx. rewrite Hpre. apply in_or_app. right. exact Hx.
   - rewrite Hpre in Hls. rewrite last_serial_app_cons in Hls.
-    rewrite (last_serial_follows _ _ Hf) in Hls. inversion Hls. lia.
+    rewrite (last_serial_follows _ _ Hf) in Hls. injection Hls as Hls.
+    rewrite <- Hl, <- Hls. reflexivity.
 Qed.
 
 (* ---- one genuine delta ---- *)
@@ -246,16 +247,16 @@ Lemma run_step_correct w cfg local st :
   let o := run_step all_fixes cfg local st in
   o_result o <= RES_updated /\ o_probe_ok o = true /\ notified_ok w local st o /\ inv w (o_local o).
 Proof.
-  intros Hg Hinv. unfold run_step, step_genuine in *.
-  destruct (s_notify st) as [| | |nf].
-  - (* NErr *) cbn. repeat split; try apply failed_result_le; try exact Hinv.
+  intros Hg Hinv. cbv zeta. unfold notified_ok, run_step, step_genuine in *.
+  destruct (s_notify st) as [| | |nf] eqn:En.
+  - (* NErr *) cbn [mk_obs o_result o_probe_ok o_local inv]. repeat split; try apply failed_result_le; try exact Hinv.
     intros H. exfalso. exact (failed_result_ne _ _ H).
   - (* N304 *) destruct local as [l|].
-    + cbn. repeat split; try (unfold RES_updated; lia); try exact Hinv.
+    + cbn [mk_obs o_result o_probe_ok o_local inv]. repeat split; try (unfold RES_updated; lia); try exact Hinv.
       intros _. exists l. repeat split. exact Hinv.
-    + cbn [fix_304 all_fixes]. cbn. repeat split; try apply failed_result_le.
+    + cbn [fix_304 all_fixes mk_obs o_result o_probe_ok o_local inv]. repeat split; try apply failed_result_le.
       intros H. exfalso. exact (failed_result_ne _ _ H).
-  - (* NBad *) cbn. repeat split; try apply failed_result_le; try exact Hinv.
+  - (* NBad *) cbn [mk_obs o_result o_probe_ok o_local inv]. repeat split; try apply failed_result_le; try exact Hinv.
     intros H. exfalso. exact (failed_result_ne _ _ H).
   - (* NOk *)
     apply andb_prop in Hg as [Hgs Hgd].
@@ -265,13 +266,16 @@ Proof.
                | Some c => mk_obs RES_updated reason (0 :: rq ++ [nf_snap_ref nf]) (Some (state_of cfg nf c))
                | None => mk_obs (failed_result cfg had) reason (0 :: rq ++ [nf_snap_ref nf]) keep
                end in
-      o_result o <= RES_updated /\ o_probe_ok o = true /\ notified_ok w local st o /\ inv w (o_local o)).
-    { intros had reason rq keep Hk. unfold notified_ok.
-      destruct (snapshot_fetch nf (s_files st)) as [c|] eqn:Hf; cbn.
+      o_result o <= RES_updated /\ o_probe_ok o = true /\
+      (o_result o = RES_updated ->
+       exists l, o_local o = Some l /\ l_session l = nf_session nf /\ l_serial l = nf_serial nf /\
+                 truth w (nf_session nf) (nf_serial nf) = Some (l_content l)) /\
+      inv w (o_local o)).
+    { intros had reason rq keep Hk. cbv zeta.
+      destruct (snapshot_fetch nf (s_files st)) as [c|] eqn:Hf; cbn [mk_obs o_result o_probe_ok o_local inv state_of l_session l_serial l_content].
       - pose proof (snapshot_fetch_truth _ _ _ _ Hgs Hf) as Ht.
         repeat split; try (unfold RES_updated; lia); try exact Ht.
-        intros _. exists (state_of cfg nf c). split; [reflexivity|].
-        destruct (s_notify st) eqn:E; cbn; auto.
+        intros _. exists (state_of cfg nf c). repeat split. exact Ht.
       - repeat split; try apply failed_result_le; try exact Hk.
         intros H. exfalso. exact (failed_result_ne _ _ H). }
     destruct local as [l|].
@@ -295,7 +299,7 @@ Proof.
         apply (Hsnap true reason rq _ Hkeep).
       * (* up to date through deltas *)
         pose proof (delta_update_none _ _ _ _ _ _ _ Hgd Hinv Hd) as Ht.
-        cbn. repeat split; try (unfold RES_updated; lia); try exact Ht.
+        cbn [mk_obs o_result o_probe_ok o_local inv]. repeat split; try (unfold RES_updated; lia); try exact Ht.
         intros _. exists (state_of cfg nf c). repeat split. exact Ht.
     + apply (Hsnap false R_new_repository [] None I).
 Qed.
